@@ -32,8 +32,16 @@ TIMES = [0, 1, 2, 3, 5]
 RUN = 6
 
 
+VAL_MODE = 'scalar'
+
+
 def val(i):
-    """The value event i sets: unique per event, and falsy for some."""
+    """The value event i sets: unique per event, and falsy for some; in the
+    container modes a fresh one-element list / one-key dictionary."""
+    if VAL_MODE == 'list':
+        return [100 + i]
+    if VAL_MODE == 'dict':
+        return {f'k{i}': 100 + i}
     return {0: 0, 1: False}.get(i, 100 + i)
 
 
@@ -50,7 +58,8 @@ def reference(events, ts):
         due = [i for i in pending if events[i][0] <= clock]
         for i in due:
             var, value = event_effect(events, i)
-            cur[var] = value
+            if var is not None:
+                cur[var] = value
             fired.append((i, k))
         pending = [i for i in pending if i not in due]
         out[min((k + 1) * ts, RUN)] = dict(cur)
@@ -65,6 +74,8 @@ def build_timeline(events):
     for i, ev in enumerate(events):
         if len(ev) > 2 and ev[2] == 'same':
             dicts.append(dicts[ev[3]])
+        elif ev[1] is None:
+            dicts.append({})          # an empty event (a time marker)
         else:
             dicts.append({('env', ev[1]): val(i)})
     return [(ev[0], d) for ev, d in zip(events, dicts)]
@@ -176,6 +187,41 @@ def check(events, ts, via, acc):
     return rows
 
 
+def check_container(events, ts, mode, acc):
+    """Events whose values are lists / dictionaries: a variable holds the
+    value of the LAST due event that names it (its updater is 'set'), not
+    a combination of the values of all events that fell due in the tick,
+    and the values handed in are never modified."""
+    global VAL_MODE
+    case = {'events': [list(e) for e in events], 'ts': ts,
+            'via': f'container:{mode}'}
+    V = lambda rule, fp, msg: acc.violate(  # noqa
+        fw.violation(rule, fp, msg, case))
+    VAL_MODE = mode
+    try:
+        try:
+            rows = run_case(events, ts, 'direct')
+        except Exception as e:  # noqa
+            V('C19.crash', f'{type(e).__name__}:{str(e)[:50]}',
+              f'unexpected {e!r}')
+            return
+        if '_mutated' in rows:
+            given, now = rows.pop('_mutated')
+            V('C19.input', 'timeline-passed-in-was-modified',
+              f'the change dictionaries handed to TimelineProcess were '
+              f'modified: {given} -> {now}')
+            return
+        ref, _ = reference(events, ts)
+    finally:
+        VAL_MODE = 'scalar'
+    for T in sorted(ref):
+        if T in rows and rows[T] != ref[T]:
+            V('C19.trajectory', 'container-valued-trajectory-differs',
+              f'ts={ts} {mode}-valued events={events}: at t={T} '
+              f'env={rows[T]}, reference {ref[T]}')
+            return
+
+
 # ----------------------------------------------------------------------
 # timesteps that are not exact in binary: "the clock has reached the event
 # time" is judged on the clock variable the simulation itself reports
@@ -207,7 +253,8 @@ def check_float(events, ts, acc):
             due = [i for i in pending if events[i][0] <= prev_clock]
             for i in due:
                 var, value = event_effect(events, i)
-                cur[var] = value
+                if var is not None:
+                    cur[var] = value
             pending = [i for i in pending if i not in due]
         if env != cur or any(type(env[k]) is not type(cur[k]) for k in cur):
             early = any(env[k] != cur[k] and env[k] in
@@ -225,10 +272,94 @@ def check_float(events, ts, acc):
           f'ts={ts}: only {n_ticks} ticks observed')
 
 
+SCRIPTS = [
+    [('run_for', 4, False), ('run_for', 1, True), ('update', 4)],
+    [('run_for', 2.5, False), ('update', 3.5), ('update', 3)],
+    [('run_for', 1, False), ('run_for', 1, False), ('run_for', 2, True),
+     ('update', 5)],
+]
+
+
+def check_scripted(events, ts, si, acc):
+    """Caller-managed run_for() sequences: the timeline's clock variable
+    equals the engine's time after every forcing call, and events fire at
+    the first tick whose clock value has reached their time."""
+    script = SCRIPTS[si]
+    case = {'events': [list(e) for e in events], 'ts': ts,
+            'via': f'script{si}'}
+    V = lambda rule, fp, msg: acc.violate(  # noqa
+        fw.violation(rule, fp, msg, case))
+    timeline = build_timeline(events)
+    holder = probes.Probe({
+        'pid': 'holder', 'ts': 1, 'log_states': False,
+        'schema': {'env': {
+            'x': {'_default': -1, '_updater': 'accumulate', '_emit': True},
+            'y': {'_default': -1, '_updater': 'nonnegative_accumulate',
+                  '_emit': True}}}, 'update': {}})
+    try:
+        eng = probes.MonitoredEngine(
+            processes={'holder': holder, 'timeline': TimelineProcess(
+                {'timeline': timeline, 'time_step': ts})},
+            topology={'holder': {'env': ('env',)},
+                      'timeline': {'global': ('global',),
+                                   'env': ('env',)}},
+            emitter={'type': 'vmc_probe'}, display_info=False)
+        order = sorted(range(len(events)), key=lambda i: (events[i][0], i))
+        pending = list(order)
+        cur = {'x': -1, 'y': -1}
+        seen = 0
+        prev_clock = 0
+        for call in script:
+            if call[0] == 'update':
+                eng.update(call[1])
+            else:
+                eng.run_for(call[1], force_complete=call[2])
+            recs = [r for r in eng.emitter.records
+                    if r['table'] == 'history']
+            for r in recs[seen:]:
+                clock = r['snapshot'].get('global', {}).get('time')
+                env = r['snapshot'].get('env', {})
+                if clock != prev_clock:
+                    due = [i for i in pending
+                           if events[i][0] <= prev_clock]
+                    for i in due:
+                        var, value = event_effect(events, i)
+                        if var is not None:
+                            cur[var] = value
+                    pending = [i for i in pending if i not in due]
+                if {'x': env.get('x'), 'y': env.get('y')} != cur:
+                    V('C19.trajectory', 'event-late-or-dropped',
+                      f'ts={ts} script {script} events={events}: when the '
+                      f'timeline clock reads {clock!r} (engine time '
+                      f'{r["data"]["time"]}) env={env}, reference {cur}')
+                    return
+                prev_clock = clock
+            seen = len(recs)
+            forcing = call[0] == 'update' or call[2]
+            clk = eng.state.get_value()['global']['time']
+            if forcing and clk != eng.global_time:
+                V('C19.trajectory', 'timeline-clock-differs-from-engine-time',
+                  f'ts={ts} script {script}: after the forcing call {call} '
+                  f'the timeline clock reads {clk}, the engine time is '
+                  f'{eng.global_time}')
+                return
+    except Exception as e:  # noqa
+        V('C19.crash', f'{type(e).__name__}:{str(e)[:50]}',
+          f'unexpected {e!r}')
+
+
 def float_event_lists(ctx):
     alphabet = list(itertools.product(FLOAT_TIMES, ('x', 'y')))
     out = []
     for n in range(1, 3 if ctx.quick else 4):
+        out += [tuple(c) for c in itertools.product(alphabet, repeat=n)]
+    return out
+
+
+def scripted_event_lists(ctx):
+    alphabet = list(itertools.product((0, 2, 5, 7), ('x', 'y')))
+    out = []
+    for n in (1, 2):
         out += [tuple(c) for c in itertools.product(alphabet, repeat=n)]
     return out
 
@@ -242,6 +373,11 @@ def event_lists(ctx):
     n = b['patterned']
     for times in itertools.product(TIMES, repeat=n):
         out.append(tuple((t, 'xy'[i % 2]) for i, t in enumerate(times)))
+    # lists that hold an EMPTY event (a bare time marker) among others
+    alphabet3 = list(itertools.product(TIMES[:4], ('x', None)))
+    for c in itertools.product(alphabet3, repeat=3):
+        if any(e[1] is None for e in c) and any(e[1] for e in c):
+            out.append(tuple(c))
     # one dictionary object re-used by two events at different times, with
     # another event at the time of its second use (every listing order)
     for t1, t2 in itertools.combinations(TIMES, 2):
@@ -263,11 +399,24 @@ def event_lists(ctx):
 
 
 def run_job(job, acc):
+    if job[0] == 'scripted':
+        for ts in (3, 2, 1.5):
+            for si in range(len(SCRIPTS)):
+                check_scripted(job[1], ts, si, acc)
+                acc.case(key=('scripted', job[1], ts, si),
+                         outcome='scripted', nontrivial=True)
+        return
     if job[0] == 'float':
         for ts in (0.1, 0.3):
             check_float(job[1], ts, acc)
             acc.case(key=('float', job[1], ts), outcome='float',
                      nontrivial=True)
+        return
+    if job[0] == 'container':
+        for ts, mode in itertools.product((1, 2, 3), ('list', 'dict')):
+            check_container(job[1], ts, mode, acc)
+            acc.case(key=('container', job[1], ts, mode),
+                     outcome='container', nontrivial=len(job[1]) >= 2)
         return
     events, = job[:1]
     for ts in (0.5, 1, 2, 3):
@@ -285,12 +434,21 @@ def run_job(job, acc):
 
 def run(ctx):
     return ctx.map(run_job, [(e,) for e in event_lists(ctx)] +
-                   [('float', e) for e in float_event_lists(ctx)])
+                   [('container', e) for e in event_lists(ctx)
+                    if len(e) <= 3] +
+                   [('float', e) for e in float_event_lists(ctx)] +
+                   [('scripted', e) for e in scripted_event_lists(ctx)])
 
 
 def replay(case):
     acc = fw.Acc()
-    if case['via'] == 'float':
+    if str(case['via']).startswith('script'):
+        check_scripted(tuple(tuple(e) for e in case['events']), case['ts'],
+                       int(case['via'][6:]), acc)
+    elif str(case['via']).startswith('container:'):
+        check_container(tuple(tuple(e) for e in case['events']), case['ts'],
+                        case['via'].split(':')[1], acc)
+    elif case['via'] == 'float':
         check_float(tuple(tuple(e) for e in case['events']), case['ts'],
                     acc)
     else:
@@ -301,3 +459,6 @@ def replay(case):
 
 RULE += (
     ' Also via=rerun: the same TimelineProcess object simulated a second time in a new engine.')
+
+RULE += (
+    " Scripted runs (sequences of update()/run_for(.., force_complete) calls with run lengths that cut a tick): after every call the timeline clock equals the engine time reached by the timeline process and every due event has fired exactly once. Empty events (time markers) between non-empty ones delay nothing. Container-valued events (one-element lists, one-key dictionaries): the last due event's value is what the variable holds, values of several events due in one tick are never combined, the values handed in are never modified.")
